@@ -535,7 +535,7 @@ pub fn run(ctx: &Ctx) -> Result<Evidence, String> {
             ladders.insert(format!("{}:{}", profile, k), json!({"required_rung": required_rung(k), "deepest_passing_rung": deepest_pass, "first_failing_rung": first_fail}));
         }
     }
-    let mut ev = Evidence::new("cases: (i) ABNF-derived and AST-rendered queries and their single and double mutants, curated valid spellings, the near-miss table; (ii) arbitrary strings (random bytes as lossy UTF-8, random Unicode incl. astral and combining characters, token soup); (iii) extreme integers (+-(2^53-1), +-2^53, i64 limits, 20+ digits) at every integer position; programmatically built queries with extreme in-range integers and arbitrary names; (iv) empty, scalar and hostile root documents; (v) nesting ladders for 18 query shapes and 4 document shapes at rungs 16..16384 (thorough: 100000); (vi) regex stress; (vii) long valid multi-byte queries, notable characters at every position, compositions. The flat segment chains run on 2 MiB stacks to rung 100000; a third, unoptimised build runs all required ladder rungs. Every string goes through parse_json_path, query, query_with_path, query_only_path, js_path_process of the parsed query, reference and reference_mut, on an 8 MiB stack inside an isolated worker, under the release and the overflow-checked build. Refutation = panic, worker death (signal/abort), more than 30 CPU-seconds for a case, or Err from evaluating a successfully parsed query. Non-trivial = distinct strings that parse, programmatic queries and ladder rungs.");
+    let mut ev = Evidence::new("cases: (i) ABNF-derived and AST-rendered queries and their single and double mutants, curated valid spellings, the near-miss table; (ii) arbitrary strings (random bytes as lossy UTF-8, random Unicode incl. astral and combining characters, token soup); (iii) extreme integers (+-(2^53-1), +-2^53, i64 limits, 20+ digits) at every integer position; programmatically built queries with extreme in-range integers and arbitrary names; (iv) empty, scalar and hostile root documents; (v) nesting ladders for 18 query shapes and 4 document shapes at rungs 16..16384 (thorough: 100000); (vi) regex stress; (vii) ladders of comparisons over count(@[?...]) and of structurally equal objects / arrays nested 16..1024 levels (work must not double per level); long valid multi-byte queries, notable characters at every position, compositions. The flat segment chains run on 2 MiB stacks to rung 100000; a third, unoptimised build runs all required ladder rungs. Every string goes through parse_json_path, query, query_with_path, query_only_path, js_path_process of the parsed query, reference and reference_mut, on an 8 MiB stack inside an isolated worker, under the release and the overflow-checked build. Refutation = panic, worker death (signal/abort), more than 30 CPU-seconds for a case, or Err from evaluating a successfully parsed query. Non-trivial = distinct strings that parse, programmatic queries and ladder rungs.");
     ev.set("exhaustive", json!(false));
     ev.set("profiles", json!(profiles));
     ev.set("ladders", Value::Object(ladders));
